@@ -3,7 +3,7 @@
 const path = require('path')
 const { encodeMap } = require('./smap')
 
-const SITE_KINDS = ['body', 'operand', 'multiline', 'double', 'arrow', 'method', 'eval', 'evalfn', 'msg-loc', 'builtin-callback', 'callback', 'msg-newline', 'throw', 'helper', 'msg-at']
+const SITE_KINDS = ['body', 'operand', 'multiline', 'double', 'arrow', 'method', 'eval', 'evalfn', 'msg-loc', 'builtin-callback', 'far-column', 'callback', 'msg-newline', 'throw', 'helper', 'msg-at']
 
 // returns {text, sites:[{k, kind, fn, line, cbLine?}], kind, omap?}
 function genVersion (rng, fi, vi, kind, o) {
@@ -53,6 +53,14 @@ function genVersion (rng, fi, vi, kind, o) {
           site.line = add(`  const e = new Error(${msg})`)
           add('  return e')
         }
+        add('}')
+        break
+      }
+      case 'far-column': {
+        // a long literal earlier in the same statement puts the call site beyond column 65536
+        add(`function ${N} (x) {`)
+        const long = 'L'.repeat(rng.pick([65500, 65536, 70000]))
+        site.line = add(plain ? `  return keep('${long}', new Error('far'))` : `  return keep('${long}', new Error(x + 'far'))`)
         add('}')
         break
       }
